@@ -35,8 +35,60 @@ def _returns(body) -> List[ast.Return]:
     return out
 
 
+def _is_static(fn) -> bool:
+    return any(isinstance(d, ast.Name) and d.id == "staticmethod" for d in fn.decorator_list)
+
+
+def _tail(stmts, make):
+    """rewrite a statement list whose `return`s are all in tail position: `return E` -> make(E); the statements after an `if` whose
+    body returns become its else branch.  Returns None when some return is not in tail position."""
+    out = []
+    for i, st in enumerate(stmts):
+        if isinstance(st, ast.Return):
+            m = make(st)
+            return out + ([m] if m is not None else [])
+        if isinstance(st, ast.If) and (_returns(st.body) or _returns(st.orelse)):
+            b = _tail(st.body, make)
+            rest = list(st.orelse) + (list(stmts[i + 1:]) if _always_returns(st.body) and not st.orelse else [])
+            if not (_always_returns(st.body) or not stmts[i + 1:] or st.orelse):
+                return None
+            o = _tail(rest, make) if rest else []
+            if b is None or o is None:
+                return None
+            if st.orelse and stmts[i + 1:]:
+                # both branches present and code follows: only fine when neither branch returns early
+                return None
+            n = ast.copy_location(ast.If(test=st.test, body=b or [ast.Pass()], orelse=o), st)
+            return out + [n]
+        if isinstance(st, ast.Try) and _returns([st]):
+            if stmts[i + 1:] or st.orelse or st.finalbody:
+                return None
+            b = _tail(st.body, make)
+            if b is None or any(_returns(h.body) for h in st.handlers):
+                return None
+            n = ast.copy_location(ast.Try(body=b, handlers=st.handlers, orelse=[], finalbody=[]), st)
+            return out + [n]
+        if _returns([st]):
+            return None          # a return inside a loop / with: not a tail position
+        out.append(st)
+    return out
+
+
+def _always_returns(body) -> bool:
+    if not body:
+        return False
+    last = body[-1]
+    if isinstance(last, (ast.Return, ast.Raise)):
+        return True
+    if isinstance(last, ast.If):
+        return _always_returns(last.body) and _always_returns(last.orelse)
+    return False
+
+
 def inlinable(fn: ast.FunctionDef) -> bool:
-    if fn.decorator_list or fn.args.vararg or fn.args.kwarg or fn.args.kwonlyargs or fn.args.posonlyargs:
+    if fn.args.vararg or fn.args.kwarg or fn.args.kwonlyargs or fn.args.posonlyargs:
+        return False
+    if fn.decorator_list and not (len(fn.decorator_list) == 1 and _is_static(fn)):
         return False
     for n in ast.walk(fn):
         if isinstance(n, (ast.Yield, ast.YieldFrom, ast.Await, ast.Global, ast.Nonlocal)):
@@ -46,8 +98,7 @@ def inlinable(fn: ast.FunctionDef) -> bool:
     body = [s for s in fn.body if not (isinstance(s, ast.Expr) and isinstance(s.value, ast.Constant) and isinstance(s.value.value, str))]
     if not body:
         return False
-    rets = _returns(body)
-    if len(rets) > 1 or (rets and rets[0] is not body[-1]):
+    if _tail(copy.deepcopy(body), lambda r: r) is None:
         return False
     params = {a.arg for a in fn.args.args}
     stored = {n.id for n in ast.walk(fn) if isinstance(n, ast.Name) and isinstance(n.ctx, (ast.Store, ast.Del))}
@@ -56,12 +107,12 @@ def inlinable(fn: ast.FunctionDef) -> bool:
     return True
 
 
-def expand(fn: ast.FunctionDef, call: ast.Call, is_method: bool) -> Optional[tuple]:
-    """(statements, value expression or None) of the body with the arguments substituted"""
+def expand(fn: ast.FunctionDef, call: ast.Call, is_method: bool, make):
+    """statements of the body with the arguments substituted and every `return E` replaced by make(<Return node>)"""
     params = [a.arg for a in fn.args.args]
     args = list(call.args)
     binding: Dict[str, ast.AST] = {}
-    if is_method:
+    if is_method and not _is_static(fn):
         if not params:
             return None
         recv = call.func.value if isinstance(call.func, ast.Attribute) else None
@@ -81,8 +132,13 @@ def expand(fn: ast.FunctionDef, call: ast.Call, is_method: bool) -> Optional[tup
         binding.setdefault(p, d)
     if set(allp) - set(binding) or len(args) > len(params):
         return None
-    if not all(_simple(v) for v in binding.values()):
-        return None
+    pre = []
+    for p_ in list(binding):
+        if not _simple(binding[p_]):
+            # an argument that is an expression: bind it to a local of the parameter's name first (what the code looked like before the
+            # block was given a name)
+            pre.append(ast.Assign(targets=[ast.Name(id=p_, ctx=ast.Store())], value=binding[p_]))
+            del binding[p_]
 
     class Sub(ast.NodeTransformer):
         def visit_Name(self, n):
@@ -91,11 +147,10 @@ def expand(fn: ast.FunctionDef, call: ast.Call, is_method: bool) -> Optional[tup
             return n
     body = [s for s in fn.body if not (isinstance(s, ast.Expr) and isinstance(s.value, ast.Constant) and isinstance(s.value.value, str))]
     body = [Sub().visit(copy.deepcopy(s)) for s in body]
-    value = None
-    if body and isinstance(body[-1], ast.Return):
-        value = body[-1].value
-        body = body[:-1]
-    return body, value
+    out = _tail(body, make)
+    if out is None:
+        return None
+    return pre + out
 
 
 def undo_extractions(modules: Dict[str, ast.Module], known_quals: set, log: List[str]):
@@ -115,48 +170,100 @@ def undo_extractions(modules: Dict[str, ast.Module], known_quals: set, log: List
             for container, cname, fn in defs:
                 if not inlinable(fn):
                     continue
-                # all references to the name in the whole module
+                # all references to the name in the whole module: every one must be a direct call (1 to 4 call sites - a block that was
+                # repeated and is now shared, or a block given a name)
                 refs = [n for n in ast.walk(tree) if (isinstance(n, ast.Name) and n.id == fn.name) or (isinstance(n, ast.Attribute) and n.attr == fn.name)]
                 calls = [c for c in ast.walk(tree) if isinstance(c, ast.Call) and (
                     (cname is None and isinstance(c.func, ast.Name) and c.func.id == fn.name) or
-                    (cname is not None and isinstance(c.func, ast.Attribute) and c.func.attr == fn.name))]
-                if len(calls) != 1 or len(refs) != 1:
+                    (cname is not None and isinstance(c.func, ast.Attribute) and c.func.attr == fn.name and
+                     (not _is_static(fn) or (isinstance(c.func.value, ast.Name) and c.func.value.id in ("self", "cls", cname)))))]
+                if not (1 <= len(calls) <= 8) or len(refs) != len(calls):
                     continue
-                call = calls[0]
-                # find the statement holding the call: Expr / Assign / Return / AnnAssign with the call as its whole value
-                done = False
-                for holder in ast.walk(tree):
-                    for fld in ("body", "orelse", "finalbody"):
-                        lst = getattr(holder, fld, None)
-                        if not isinstance(lst, list):
-                            continue
-                        for i, st in enumerate(lst):
-                            if isinstance(st, (ast.Expr, ast.Assign, ast.Return)) and getattr(st, "value", None) is call:
-                                ex = expand(fn, call, cname is not None)
-                                if ex is None:
-                                    continue
-                                body, value = ex
-                                if isinstance(st, ast.Expr):
-                                    new = body + ([ast.copy_location(ast.Expr(value=value), st)] if value is not None and not isinstance(value, ast.Constant) else [])
-                                elif value is None:
-                                    continue
-                                elif isinstance(st, ast.Assign):
-                                    same = len(st.targets) == 1 and isinstance(st.targets[0], ast.Name) and isinstance(value, ast.Name) and st.targets[0].id == value.id
-                                    new = body + ([] if same else [ast.copy_location(ast.Assign(targets=st.targets, value=value), st)])
-                                else:
-                                    new = body + [ast.copy_location(ast.Return(value=value), st)]
-                                for s_ in new:
-                                    ast.fix_missing_locations(s_)
-                                lst[i:i + 1] = new
-                                done = True
-                                break
-                        if done:
-                            break
-                    if done:
+                if any(c is x for c in calls for x in ast.walk(fn)):      # recursive
+                    continue
+                staged = []
+                ok = True
+                for call in calls:
+                    site = _find_site(tree, call)
+                    if site is None:
+                        ok = False
                         break
-                if done:
-                    container.remove(fn)
-                    log.append(f"{mname}.{(cname + '.') if cname else ''}{fn.name} inlined at its only call site")
-                    changed = True
+                    lst, i, st, direct = site
+                    if direct and isinstance(st, ast.Expr):
+                        make = lambda r: (ast.copy_location(ast.Expr(value=r.value), r) if r.value is not None and not isinstance(r.value, (ast.Constant, ast.Name)) else None)
+                    elif direct and isinstance(st, ast.Assign):
+                        tg = st.targets
+                        def make(r, tg=tg):
+                            v = r.value if r.value is not None else ast.Constant(value=None)
+                            if len(tg) == 1 and isinstance(tg[0], ast.Name) and isinstance(v, ast.Name) and tg[0].id == v.id:
+                                return None
+                            return ast.copy_location(ast.Assign(targets=copy.deepcopy(tg), value=v), r)
+                    elif direct and isinstance(st, ast.Return):
+                        make = lambda r: ast.copy_location(ast.Return(value=r.value), r)
+                    else:
+                        make = None
+                    if make is not None:
+                        new = expand(fn, call, cname is not None, make)
+                        if new is None:
+                            ok = False
+                            break
+                    else:
+                        # the call is an operand inside the statement: only for a body with one trailing return - the body goes in front of
+                        # the statement and the returned value takes the call's place
+                        holder = {}
+                        def make(r, holder=holder):
+                            holder["v"] = r.value
+                            return None
+                        new = expand(fn, call, cname is not None, make)
+                        body0 = [s_ for s_ in fn.body if not (isinstance(s_, ast.Expr) and isinstance(s_.value, ast.Constant))]
+                        if new is None or "v" not in holder or holder["v"] is None or len(_returns(body0)) != 1 or not isinstance(body0[-1], ast.Return):
+                            ok = False
+                            break
+                        staged.append((lst, st, new + [st], (call, holder["v"])))
+                        continue
+                    staged.append((lst, st, new, None))
+                if not ok or not staged:
+                    continue
+                for lst, st, new, repl in staged:
+                    if repl is not None:
+                        _replace_node(st, repl[0], repl[1])
+                    for s_ in new:
+                        ast.fix_missing_locations(s_)
+                    k = next(i_ for i_, x in enumerate(lst) if x is st)
+                    lst[k:k + 1] = new
+                container.remove(fn)
+                log.append(f"{mname}.{(cname + '.') if cname else ''}{fn.name} inlined at its {len(calls)} call site(s)")
+                changed = True
             if not changed:
                 break
+
+
+def _find_site(tree, call):
+    """(statement list, index, statement, call-is-the-whole-value) of the simple statement that evaluates `call`"""
+    for holder in ast.walk(tree):
+        for fld in ("body", "orelse", "finalbody"):
+            lst = getattr(holder, fld, None)
+            if not isinstance(lst, list):
+                continue
+            for i, st in enumerate(lst):
+                if isinstance(st, (ast.Expr, ast.Assign, ast.Return, ast.AugAssign)) and any(x is call for x in ast.walk(st)):
+                    # not inside a lambda / comprehension / conditional operand (evaluation would no longer be unconditional or once)
+                    for x in ast.walk(st):
+                        if isinstance(x, (ast.Lambda, ast.ListComp, ast.SetComp, ast.DictComp, ast.GeneratorExp, ast.IfExp, ast.BoolOp)) and any(y is call for y in ast.walk(x)):
+                            return None
+                    direct = getattr(st, "value", None) is call and not isinstance(st, ast.AugAssign)
+                    return (lst, i, st, direct)
+    return None
+
+
+def _replace_node(root, old, new):
+    for parent in ast.walk(root):
+        for fld, val in ast.iter_fields(parent):
+            if val is old:
+                setattr(parent, fld, new)
+                return
+            if isinstance(val, list):
+                for k, x in enumerate(val):
+                    if x is old:
+                        val[k] = new
+                        return
